@@ -84,8 +84,8 @@ def _variant(i, seed):
     """deterministic variation of the concrete rendering of a path: cell size, clock step, slack inside the
     equivalence class of file_size / total_size, utc"""
     k = (i * 7919 + seed * 104729) & 0xffff
-    unit = (8, 9, 13)[k % 3]
-    step = (1.0, 0.015625, 3600.0)[(k // 3) % 3]
+    unit = (8, 9, 13, 128)[k % 4]          # 128: offsets of one, two and three digits (saved positions of different lengths)
+    step = (1.0, 0.015625, 3600.0)[(k // 4) % 3]
     slack = ((k // 9) % unit if (k // 7) % 2 else 0, (k // 11) % unit if (k // 5) % 2 else 0)
     return unit, step, slack, bool((k // 13) % 2)
 
